@@ -34,11 +34,11 @@ ASSUMPTIONS = [
     "the loaded-table set at each edit is a legitimate input and is held equal in the reference replica",
     "optional native dependencies present in /venv are used as installed; their presence is not varied here",
 ]
-EXPECTED_PROBES = ["xml.before_after_save_compared", "xml.dump_vs_reference_compared", "hashsweep.runs_compared", "order.pairs", "pipe.ok", "pipe.build", "pipe.merge", "pipe.instance", "pipe.fea", "pipe.feagen", "pipe.subset", "pipe.ttx", "save.checked", "op.savexml", "op.failsave.compile", "op.failsave.dest", "lazy.True", "lazy.None", "lazy.False", "edit.reorder", "edit.subset", "edit.scale", "edit.instantiate"]
+EXPECTED_PROBES = ["ttc.replica_compared", "ttc.untouched_member_checked", "xml.before_after_save_compared", "xml.dump_vs_reference_compared", "hashsweep.runs_compared", "order.pairs", "pipe.ok", "pipe.build", "pipe.merge", "pipe.instance", "pipe.fea", "pipe.feagen", "pipe.subset", "pipe.ttx", "save.checked", "op.savexml", "op.failsave.compile", "op.failsave.dest", "lazy.True", "lazy.None", "lazy.False", "edit.reorder", "edit.subset", "edit.scale", "edit.instantiate"]
 
 TIERS = {
-    "quick": {"budget_s": 170, "determinism_sample": 16, "n": {"hist": 2700, "hist_fail": 1000, "hist_ensure": 700, "second_save": 900, "clock": 400, "pipe": 500, "order": 40, "hashsweep": 16}, "minimise_s": 60, "max_minimise": 3},
-    "thorough": {"budget_s": 1500, "determinism_sample": 200, "n": {"hist": 16000, "hist_fail": 5000, "hist_ensure": 4000, "second_save": 1400, "clock": 1500, "pipe": 6000, "order": 500, "hashsweep": 320}, "minimise_s": 180, "max_minimise": 6},
+    "quick": {"budget_s": 170, "determinism_sample": 16, "n": {"hist": 2700, "hist_fail": 1000, "hist_ensure": 700, "second_save": 900, "clock": 400, "ttc": 300, "pipe": 500, "order": 40, "hashsweep": 16}, "minimise_s": 60, "max_minimise": 3},
+    "thorough": {"budget_s": 1500, "determinism_sample": 200, "n": {"hist": 16000, "hist_fail": 5000, "hist_ensure": 4000, "second_save": 1400, "clock": 1500, "ttc": 2500, "pipe": 6000, "order": 500, "hashsweep": 320}, "minimise_s": 180, "max_minimise": 6},
 }
 
 OBSERVE_OPS = ["touch", "contains", "keys", "glyphorder", "glyphset", "bestcmap", "tabledata", "save", "savexml", "deepcopy", "revmap", "ensure_table"]
@@ -87,6 +87,7 @@ def batches(ctx):
         {"name": "hist_fail", "n": n["hist_fail"], "fault_free": False},
         {"name": "second_save", "n": n["second_save"], "fault_free": True},
         {"name": "clock", "n": n["clock"], "fault_free": True},
+        {"name": "ttc", "n": n.get("ttc", 0), "fault_free": True},
         {"name": "pipe", "n": n.get("pipe", 0), "fault_free": True},
         {"name": "order", "n": n.get("order", 0), "fault_free": True, "front": 0.6},
         {"name": "hashsweep", "n": n.get("hashsweep", 0), "fault_free": True, "front": 0.6},
@@ -273,6 +274,27 @@ def generate(ctx, batch, idx):
                 pre = pre[: r.randint(0, 4)] + same
                 r.shuffle(pre)
         return {"kind": "order", "target": [tb, ti], "ops": pre, "font": key, "hashseed": r.randrange(1, 1 << 31)}
+    if batch == "ttc":
+        # a collection of 2-3 canonical members: touches, small edits and saves on the lazily opened
+        # collection against a fresh eager collection that replays the edits only
+        ops = []
+        for _ in range(r.randint(1, 8)):
+            q = r.random()
+            m = r.randrange(3)
+            if q < 0.45:
+                ops.append(["touch", {"m": m, "k": r.randrange(1 << 16)}])
+            elif q < 0.8:
+                ops.append([r.choice(["name", "rev", "os2", "hmtx", "cmap", "glyfshift", "headflags", "vmtx"]), {"m": m, "k": r.randrange(1 << 16), "s": "TTC %d" % r.randrange(100), "id": r.choice([1, 4, 256])}])
+            else:
+                ops.append(["save", {"share": r.random() < 0.7}])
+        ops.append(["save", {"share": r.random() < 0.7, "final": True}])
+        open_share = r.random() < 0.3
+        if open_share:
+            # members opened with shared table OBJECTS (TTCollection(shareTables=True): "use only if you know
+            # what you are doing"): an edit then reaches every member holding the object and derived fields
+            # of the others go stale by design, so these histories only observe (touch, save)
+            ops = [op if op[0] in ("touch", "save") else ["touch", {"m": op[1]["m"], "k": op[1]["k"]}] for op in ops]
+        return {"kind": "ttc", "font": key, "members": [r.randrange(1 << 16) for _ in range(r.randint(1, 2))], "dup": r.random() < 0.4, "lazy": r.choice([None, True, False]), "open_share": open_share, "ops": ops}
     if batch == "clock":
         return {
             "kind": "clock",
@@ -890,6 +912,8 @@ def execute(ctx, h):
             return exec_second_save(ctx, h, src, scratch)
         if kind == "clock":
             return exec_clock(ctx, h, src, scratch)
+        if kind == "ttc":
+            return exec_ttc(ctx, h, src, scratch)
         raise ValueError(kind)
     finally:
         scratch.close()
@@ -1273,6 +1297,135 @@ def exec_clock(ctx, h, src, scratch):
             res["violation"] = {"class": "modified-not-a-clock-reading", "detail": "TTC head.modified=%d is none of the clock readings %s" % (mods[0], reads[:4])}
     res["sim_time"] = clock.span()
     res["states"].append(prng.digest([h["font"], mode, h["lazy"]])[:20])
+    if res.get("violation"):
+        _match_known(ctx, h, res)
+    return res
+
+
+def exec_ttc(ctx, h, src, scratch):
+    """Collections. The file is a TTC assembled from canonical members (recompile fixed points), so which
+    tables happen to be decoded cannot matter: the lazily opened collection with its touches, edits and
+    intermediate saves must save exactly what a freshly, eagerly opened collection saves after the same
+    edits and the same decoded-table sets; a member nobody edited keeps every table of the file; a second
+    save repeats the first."""
+    from fontTools.ttLib import TTFont, TTCollection
+    from oracles import container
+
+    events, probes = [], {}
+    res = {"events": events, "probes": probes, "states": [], "known": [], "nontrivial": True}
+    keys = corpus.all_gen2_keys()
+    members = [src]
+    for k in h["members"]:
+        g = corpus.gen2(_sel(keys, k))
+        if g is not None and g[:4] == src[:4]:
+            members.append(g)
+    if h.get("dup"):
+        members.append(src)  # two members with identical tables: everything can be shared
+    with world.isolated():
+        coll = TTCollection()
+        coll.fonts = [TTFont(io.BytesIO(m), lazy=False, recalcTimestamp=False) for m in members]
+        b = io.BytesIO()
+        coll.save(b, shareTables=True)
+        file0 = b.getvalue()
+    nm = len(members)
+    base = [container.tables_of(file0, fontNumber=i) for i in range(nm)]
+
+    def open_coll(lazy, share):
+        return TTCollection(io.BytesIO(file0), shareTables=share, lazy=lazy, recalcTimestamp=False)
+
+    def save(c, share):
+        o = io.BytesIO()
+        c.save(o, shareTables=share)
+        return o.getvalue()
+
+    outs = []
+    edited = set()
+    edits = []
+    try:
+        with world.isolated():
+            c = open_coll(h["lazy"], h.get("open_share", False))
+            for name, a in h["ops"]:
+                if name == "save":
+                    before = [sorted(loaded_set(f)) for f in c.fonts]
+                    outs.append((len(edits), a["share"], save(c, a["share"]), before))
+                    continue
+                f = c.fonts[a["m"] % nm]
+                if name == "touch":
+                    tags = _tags(f)
+                    f[_sel(tags, a["k"])]
+                else:
+                    apply_edit(f, name, a)
+                    edits.append((a["m"] % nm, name, a))
+                    edited.add(a["m"] % nm)
+            after_first = [sorted(loaded_set(f)) for f in c.fonts]
+            # the second save of the same object
+            again = save(c, outs[-1][1])
+    except Exception as e:
+        events.append(["ttc-rejected", _exc_sig(e)])
+        probes["ttc.rejected"] = 1
+        res["nontrivial"] = False
+        return res
+    probes["ttc.histories"] = 1
+    probes["ttc.members"] = nm
+    if h.get("open_share"):
+        probes["ttc.opened_with_shared_table_objects"] = 1
+    where = " [members=%d lazy=%s open_share=%s ops=%s font=%s]" % (nm, h["lazy"], h.get("open_share"), [o[0] for o in h["ops"]], h["font"])
+    events.append([prng.bdigest(o[2]) for o in outs])
+    final = outs[-1][2]
+    if again != final:
+        # same class and signature as for single fonts: finding K1 (the first save itself decoded further
+        # tables, which only the second save re-encodes / recalculates) is told apart by what the save loaded
+        newly = sorted(set(t for a_, b_ in zip(after_first, outs[-1][3]) for t in set(a_) - set(b_)))
+        res["violation"] = {"class": "second-save-differs", "detail": "two consecutive saves of one collection object differ; the first save decoded %s" % (newly or "nothing further") + where, "sig": {"first_save_loaded": newly, "ttc": True}}
+    if not res.get("violation"):
+        for i in range(nm):
+            if i in edited:
+                continue
+            try:
+                got = container.tables_of(final, fontNumber=i)
+            except Exception as e:
+                res["violation"] = {"class": "ttc-output-unreadable", "detail": str(e) + where}
+                break
+            probes["ttc.untouched_member_checked"] = probes.get("ttc.untouched_member_checked", 0) + 1
+            hm = lambda d: d[:8] + d[12:] if d is not None and len(d) >= 12 else d  # noqa: E731  (checkSumAdjustment)
+            bad = [t for t in sorted(set(got) | set(base[i])) if (hm(got.get(t)) if t == "head" else got.get(t)) != (hm(base[i].get(t)) if t == "head" else base[i].get(t))]
+            if bad:
+                res["violation"] = {"class": "ttc-unedited-member-changed", "detail": "member %d was never edited, yet its tables %s differ from the file after edits to members %s" % (i, bad, sorted(edited)) + where}
+                break
+    if not res.get("violation"):
+        # reference: fresh eager collection, the edits before each save, one save
+        for n_edits, share, out, _loaded in outs:
+            with world.isolated():
+                try:
+                    rc = open_coll(False, False)
+                    for m, name, a in edits[:n_edits]:
+                        apply_edit(rc.fonts[m], name, a)
+                    # same decoded-table sets as the observed members had when they were saved (whether a
+                    # derived field is recalculated depends on what is decoded: findings K1/K2, not this batch)
+                    for f, tags in zip(rc.fonts, _loaded):
+                        for t in tags:
+                            if t in f:
+                                f[t]
+                    ref = save(rc, share)
+                except Exception as e:
+                    ref = "exc:" + _exc_sig(e)
+            probes["ttc.replica_compared"] = probes.get("ttc.replica_compared", 0) + 1
+            if ref != out:
+                detail = "raised " + ref if isinstance(ref, str) else ""
+                if not isinstance(ref, str):
+                    try:
+                        dm = []
+                        for i in range(nm):
+                            ta, tb = container.tables_of(out, fontNumber=i), container.tables_of(ref, fontNumber=i)
+                            d = [t for t in sorted(set(ta) | set(tb)) if ta.get(t) != tb.get(t)]
+                            if d:
+                                dm.append((i, d))
+                        detail = "members/tables differing: %s (sizes %d vs %d)" % (dm or "<container only>", len(out), len(ref))
+                    except Exception as e:
+                        detail = "unreadable: %s" % e
+                res["violation"] = {"class": "ttc-save-differs-from-edit-only-replica", "detail": "after %d edits, shareTables=%s: %s" % (n_edits, share, detail) + where, "sig": {"edits": [e[1] for e in edits[:n_edits]]}}
+                break
+    res["states"].append(prng.digest([h["font"], nm, h["lazy"], [o[0] for o in h["ops"]]])[:20])
     if res.get("violation"):
         _match_known(ctx, h, res)
     return res
